@@ -2,6 +2,7 @@
 from __future__ import annotations
 
 import ast
+import re
 from itertools import permutations
 
 from ..astx import un, NoValue, Poly, const_value
@@ -71,17 +72,54 @@ def spec_entry(eI, eJ, eK, metric_pos):
 
 
 # --------------------------------------------------------------------------- building the algebra stand-in from source
+def named_algebras(repo):
+    """What Algebra.fromname constructs for each name it knows: {name: (pqr, basis, keyword names)}.  The classmethod
+    is interpreted from source with the class replaced by a recorder of the constructor call; candidate names are the
+    string constants of its body (a blade name such as 'e01' simply raises and is skipped)."""
+    cache = getattr(repo, "_named_algebras", None)
+    if cache is not None:
+        return cache
+    fn = repo.func("algebra.Algebra.fromname")
+    doc = ast.get_docstring(fn)
+    consts = []
+    for n in ast.walk(fn):
+        if isinstance(n, ast.Constant) and isinstance(n.value, str) and n.value != doc and n.value not in consts \
+                and not re.fullmatch(r"e[0-9a-fA-F]*", n.value) and len(n.value) < 40:
+            consts.append(n.value)
+    out = {}
+    for name in consts:
+        it = make_interp(repo)
+        seen = {}
+
+        def hook(cname, args, kwargs, _seen=seen):
+            _seen["call"] = (list(args), dict(kwargs))
+            return Obj("Algebra", {"fmt": "<Algebra>"})
+        it.class_call_hook = hook
+        try:
+            res = it.run("algebra.Algebra.fromname", [ClassRef("Algebra"), name])
+        except NoValue as exc:
+            raise Unknown("algebra.Algebra.fromname", f"fromname({name!r}) cannot be evaluated: {exc}", fn)
+        if res[0] == "raise" or "call" not in seen:
+            continue
+        args, kwargs = seen["call"]
+        vals = {"p": 0, "q": 0, "r": 0}
+        vals.update(dict(zip(("p", "q", "r"), args)))
+        vals.update({k: v for k, v in kwargs.items() if k in vals})
+        basis = kwargs.get("basis")
+        if not all(isinstance(vals[k], int) for k in vals):
+            raise Unknown("algebra.Algebra.fromname", f"fromname({name!r}) constructs Algebra({args}, {kwargs})", fn)
+        out[name] = ([vals["p"], vals["q"], vals["r"]], list(basis) if isinstance(basis, (list, tuple)) else None, sorted(kwargs))
+    repo._named_algebras = out
+    return out
+
+
 def read_named_basis(repo, name):
     fn = repo.func("algebra.Algebra.fromname")
-    for iff in [n for n in ast.walk(fn) if isinstance(n, ast.If)]:
-        if isinstance(iff.test, ast.Compare) and isinstance(iff.test.comparators[0], ast.Constant) and iff.test.comparators[0].value == name:
-            for st in iff.body:
-                if isinstance(st, ast.Assign) and un(st.targets[0]) == "basis":
-                    basis = const_value(st.value)
-                if isinstance(st, ast.Return):
-                    pqr = [const_value(a) for a in st.value.args[:3]]
-            return basis, pqr
-    raise Unknown("algebra.Algebra.fromname", f"named basis {name} not found", fn)
+    table = named_algebras(repo)
+    if name not in table or table[name][1] is None:
+        raise Unknown("algebra.Algebra.fromname", f"named basis {name} not found", fn)
+    pqr, basis, _ = table[name]
+    return list(basis), list(pqr)
 
 
 def build_algebra(repo, p=0, q=0, r=0, signature=None, start_index=None, basis=None):
